@@ -109,7 +109,7 @@ func runOneStartPipe(c spCase, tmpBase string, idx int) (sx.V, sx.V) {
 		f.Write(c.Out)
 		f.Close()
 		outFile = f.Name()
-		script := `cat "$VERIF_OUT"; exec sleep 30`
+		script := `trap "" TERM; cat "$VERIF_OUT"; exec sleep 30` // the plugin ignores SIGTERM: only a real kill ends it
 		if !stall && !strings.Contains(string(c.Out), "\n") {
 			script = `cat "$VERIF_OUT"; exit 0`
 		}
